@@ -11,6 +11,21 @@ from .core import Rng
 # property -> stages.  A stage is one engine on one build config with a run budget per tier:
 #   (engine module name, config, quick runs, quick seconds cap, thorough runs, thorough seconds cap, opts)
 PROPS = {
+    'C05': dict(
+        level='exploration',
+        rule=('protosim: seeded runs of 1-8 interleaved signature sessions; every transmitted key/signature/message field is '
+              'encoded, faulted on the wire or substituted by a dishonest sender, and decoded before verification; verdicts '
+              'are compared with FIPS 186-4 / RFC 8017 reference models (ECDSA, RSA) or with the metamorphic rule (unchanged '
+              'values accept, altered authenticated values reject, legal malleations accept); distinct = (scheme, fault set, '
+              'verdict, expectation, mode)'),
+        stages=[('protosim', 'A', 2400, 200, 60000, 2400, {})]),
+    'C06': dict(
+        level='exploration',
+        rule=('protosim: seeded runs of interleaved encryption / key-agreement / sharing sessions over a faulty wire; outputs '
+              'are compared with reference models (RFC 8017 OAEP, KDF2 over python point arithmetic, integer sums mod n, '
+              'Lagrange interpolation) evaluated on what was actually delivered; distinct = (scheme, fault set, outcome, '
+              'parameter class)'),
+        stages=[('protosim', 'A', 2400, 200, 60000, 2400, {})]),
     'C07': dict(
         level='exploration',
         rule=('codecsim: seeded runs of ENC/FAULT/DEC/CAPW/BNSTR/RDSTR ops over a faulty store; every decode of a damaged '
